@@ -135,6 +135,10 @@ func init() {
 					if boolean(in, "exclusionFileTrailingNewline", true) {
 						text += "\n"
 					}
+					if boolean(in, "exclusionFileLongLine", false) {
+						// a first line longer than bufio.Scanner's token limit: reading the file fails half way
+						text = strings.Repeat("a", 70000) + "\n" + text
+					}
 					f.WriteString(text)
 					f.Close()
 					defer os.Remove(f.Name())
